@@ -570,13 +570,21 @@ theorem mha_bias_addend_prefix_refuted (i : MhabIn) (y1 y2 : Option Shape) :
 
 /-! ## Mixed ranks and pipeline order -/
 
-/-- The batch-transpose rules look only at the transposed operand's `perm`: the decision and the emitted flags do
-not depend on the OTHER operand's rank (finding C19-F15: for operands of different rank onnxruntime rejects
-`transBatchA/B = 1`). -/
-theorem batch_rules_ignore_other_operand_rank :
+/-- Before commit d043511 the batch-transpose rules looked only at the transposed operand's `perm`: the decision
+and the emitted flags did not depend on the OTHER operand's rank (finding C19-F15, fixed: for operands of different
+rank onnxruntime rejects `transBatchA/B = 1`). -/
+theorem batch_rules_other_operand_rank_prefix_refuted :
     fmm { kind := "t1", rank := 3, xRank := 3, yRank := 2, inner := some FAttrs.empty, perm := some [1, 2, 0],
-          cstConst := true, cstShape := [], cst := 2.0 }
+          cstConst := true, cstShape := [], cst := 2.0, fix15 := false }
       = "count=1 FusedMatMul@com.microsoft{transA=1;transBatchA=1}(x,y)->1"
+    ∧ fmm { kind := "t1", rank := 3, xRank := 3, yRank := 3, inner := some FAttrs.empty, perm := some [1, 2, 0],
+            cstConst := true, cstShape := [], cst := 2.0, fix15 := false }
+      = "count=1 FusedMatMul@com.microsoft{transA=1;transBatchA=1}(x,y)->1" := by decide
+
+/-- The current batch rules (commit d043511) leave the mixed-rank graph unchanged; the equal-rank one still fuses. -/
+theorem batch_rules_equal_rank_guard :
+    fmm { kind := "t1", rank := 3, xRank := 3, yRank := 2, inner := some FAttrs.empty, perm := some [1, 2, 0],
+          cstConst := true, cstShape := [], cst := 2.0 } = "count=0"
     ∧ fmm { kind := "t1", rank := 3, xRank := 3, yRank := 3, inner := some FAttrs.empty, perm := some [1, 2, 0],
             cstConst := true, cstShape := [], cst := 2.0 }
       = "count=1 FusedMatMul@com.microsoft{transA=1;transBatchA=1}(x,y)->1" := by decide
